@@ -45,6 +45,7 @@ type encTime struct {
 	Sec   string   `json:"sec"`   // exec only: t.Unix()
 	Nsec  int      `json:"nsec"`  // exec only
 	Zoff  int      `json:"zoff"`  // zone offset seconds (0 = UTC)
+	Zname string   `json:"zname"` // exec only: zone abbreviation (hex); "" = "Z"
 	V     *encPrim `json:"v"`     // what the configured EncodeTime appended (null: nil or no-op)
 }
 
@@ -130,6 +131,7 @@ type encOp struct {
 	Console bool         `json:"console"`
 	Cfg     encCfg       `json:"cfg"`
 	Ent     encEnt       `json:"ent"`
+	Reentrant bool       `json:"reentrant"` // exec only: the sink logs another entry (same encoder pools) before it reads its argument
 	Ctx     [][]encField `json:"ctx"`
 	Fields  []encField   `json:"fields"`
 }
